@@ -131,14 +131,18 @@ Proof.
     + rewrite W1, IH by exact W2. reflexivity.
 Qed.
 
-Lemma wf_items_fold ks h : wf_items h = true -> wf_items (fold_left (fun h k => ddel pv k h) ks h) = true.
-Proof. revert h. induction ks as [|k t IH]; intros h W; [exact W|]. cbn [fold_left]. apply IH, wf_items_ddel, W. Qed.
+Lemma wf_items_strip h : wf_items h = true -> wf_items (strip_reserved pv h) = true.
+Proof.
+  unfold wf_items. induction h as [|[k v] t IH]; intro W; [reflexivity|].
+  cbn [forallb] in W. apply andb_true_iff in W as [W1 W2]. cbn [strip_reserved].
+  destruct (is_stripped k); [auto|]. cbn [forallb]. rewrite W1, IH by exact W2. reflexivity.
+Qed.
 
 Lemma wf_make_header hdr dt : wf_items hdr = true -> wf_dtype dt = true ->
   wf_items (make_header pv py_vstr py_vdescr hdr dt) = true.
 Proof.
   intros Wh Wd. unfold make_header. apply wf_items_dset; [reflexivity | reflexivity |].
-  apply wf_items_dset; [reflexivity | apply wf_vdescr; exact Wd |]. apply wf_items_fold. exact Wh.
+  apply wf_items_dset; [reflexivity | apply wf_vdescr; exact Wd |]. apply wf_items_strip. exact Wh.
 Qed.
 
 (* ------------------------------------------------------------------ the printed header text *)
